@@ -683,6 +683,63 @@ def non_iterables(col, phase=''):
         col.violation('C15/flatten-negative-levels', 'flatten(levels=-1) gave %r' % got, None)
 
 
+class _Vec:
+    """a number-like class written to work with the builtin sum(): 0 + v is v itself; v += w works in place"""
+    def __init__(self, v):
+        self.v = v
+
+    def __add__(self, o):
+        return _Vec(self.v + o.v)
+
+    def __radd__(self, o):
+        if o == 0:
+            return self
+        return NotImplemented
+
+    def __iadd__(self, o):
+        self.v += o.v
+        return self
+
+    def __eq__(self, o):
+        return type(o) is _Vec and o.v == self.v
+
+    def __repr__(self):
+        return 'Vec(%r)' % (self.v,)
+
+
+def elements_taken_over_as_accumulator(col):
+    """"Sum equals sum", "no element of the input is ever mutated", "results of separate evaluations share no state" for elements for
+    which the first addition returns the element itself (0 + v is v, the idiom that makes a class work with the builtin sum) and which
+    can be added to in place"""
+    from glom.grouping import Group
+    cases = [('Sum() over such elements', lambda: [_Vec(1), _Vec(2), _Vec(4)], lambda: Sum(), lambda t: sum(t)),
+             ('Sum(subspec) over such elements', lambda: {'vs': [_Vec(1), _Vec(2)]}, lambda: Sum('vs'), lambda t: sum(t['vs'])),
+             ('Sum() as the aggregator of a Group', lambda: [_Vec(1), _Vec(2), _Vec(4)], lambda: Group(Sum()), lambda t: sum(t)),
+             ('Sum() per bucket of a Group', lambda: [_Vec(1), _Vec(2), _Vec(3)], lambda: Group({(lambda x: x.v % 2): Sum()}),
+              lambda t: {1: sum([t[0], t[2]]), 0: sum([t[1]])}),
+             ('Sum() over one element', lambda: [_Vec(7)], lambda: Sum(), lambda t: sum(t)),
+             ('Fold with operator.add', lambda: [_Vec(1), _Vec(2)], lambda: Fold(T, init=int, op=operator.add), lambda t: sum(t))]
+    for desc, mk_t, mk_spec, ref in cases:
+        t, twin = mk_t(), mk_t()
+        want = call(ref, twin)
+        spec = mk_spec()
+        before = repr(t)
+        got1 = call(G, t, spec)
+        after1 = repr(t)
+        first_ok, first_repr = got1.ok and want.ok and got1.value == want.value, repr(got1)
+        got2 = call(G, t, spec)
+        col.case(('element-as-accumulator', desc), True)
+        col.count('glom_evaluations', 2)
+        col.count('input_snapshots')
+        if not first_ok:
+            col.violation('C15/differs-from-python-reference:element-taken-over-as-accumulator', '%s: glom gives %s, Python gives %r' % (desc, first_repr, want), None)
+        elif after1 != before:
+            col.violation('C15/sum-mutates-an-input-element-it-took-over-as-accumulator', '%s: the input was %s, after one evaluation (result %r) it is %s'
+                          % (desc, before, got1.value, after1), None)
+        elif not (got2.ok and got2.value == want.value):
+            col.violation('C15/evaluations-share-state:element-taken-over-as-accumulator', '%s: second evaluation gives %r, the first gave %s' % (desc, got2, first_repr), None)
+
+
 def run(ctx):
     col, rng = ctx.col, ctx.rng
     col.require('glom_evaluations', 1000)
@@ -694,6 +751,7 @@ def run(ctx):
         reductions_next_to_group_specs(col)
         reductions_as_group_aggregators(col)
         lazy_flatten_is_lazy(col)
+        elements_taken_over_as_accumulator(col)
         lazily_flatten_items_of_non_iterable_types(col)
         non_iterables(col, ':after-reductions-over-items-of-such-types')
     for i in range(ctx.n(20000, 100000)):
